@@ -127,8 +127,9 @@ def list_points(pid):
 
 def run(pid, slot, nslots, out, max_per_fn):
     head = subprocess.check_output(['git', '-C', '/repo', 'rev-parse', 'HEAD'], text=True).strip()
-    wt = f'/tmp/mutwt-{slot}'
-    vcopy = f'/tmp/mutv-{slot}'
+    pre = os.environ.get('MUT_PREFIX', '')
+    wt = f'/tmp/mutwt-{pre}{slot}'
+    vcopy = f'/tmp/mutv-{pre}{slot}'
     subprocess.call(['git', '-C', '/repo', 'worktree', 'remove', '--force', wt], stderr=subprocess.DEVNULL)
     subprocess.call(['rm', '-rf', wt, vcopy])
     subprocess.check_call(['git', '-C', '/repo', 'worktree', 'add', '-q', '--detach', wt, head])
